@@ -15,6 +15,7 @@ import (
 	"strconv"
 	"strings"
 	"sync"
+	"syscall"
 )
 
 type (
@@ -60,6 +61,7 @@ var (
 	open     = map[*File]struct{}{}
 	failKind string
 	failAt   int
+	failMode string // "": ErrInjected; "enospc": the error is ENOSPC (nothing written); "enospc-torn": half of a write is applied first
 	failCnt  = map[string]int{}
 	opCnt    = map[string]int{}
 	killAt   = -1
@@ -94,18 +96,23 @@ func SetRoot(dir string) {
 }
 
 // SetFail arms a single fault: "kind:k" fails the k-th (1-based) op of that kind. "" disarms.
+// "kind:k:enospc" makes the error a wrapped syscall.ENOSPC (what a full volume answers; the next attempt succeeds),
+// "write:k:enospc-torn" additionally applies the first half of the write before failing.
 func SetFail(spec string) {
 	mu.Lock()
 	defer mu.Unlock()
-	failKind, failAt = "", 0
+	failKind, failAt, failMode = "", 0, ""
 	failCnt = map[string]int{}
 	Failed = false
 	if spec == "" {
 		return
 	}
-	parts := strings.SplitN(spec, ":", 2)
+	parts := strings.SplitN(spec, ":", 3)
 	failKind = parts[0]
 	failAt, _ = strconv.Atoi(parts[1])
+	if len(parts) == 3 {
+		failMode = parts[2]
+	}
 }
 
 // OpCounts returns how many tracked operations of every kind were attempted since ResetCounts.
@@ -172,6 +179,9 @@ func before(kind string, path string) error {
 		failCnt[kind]++
 		if failCnt[kind] == failAt {
 			Failed = true
+			if failMode != "" {
+				return &realos.PathError{Op: kind, Path: path, Err: syscall.ENOSPC}
+			}
 			return fmt.Errorf("%w (%s #%d on %s)", ErrInjected, kind, failAt, filepath.Base(path))
 		}
 	}
@@ -410,6 +420,18 @@ func (f *File) write(b []byte, off int64, at bool) (int, error) {
 		realos.Exit(137)
 	}
 	if err := before("write", f.name); err != nil {
+		if failMode == "enospc-torn" && len(b) > 1 {
+			// a full volume takes what still fits: the first half lands in the file, the position moves with it
+			n, _ := f.f.WriteAt(b[:len(b)/2], off)
+			if n > 0 {
+				journal = append(journal, Op{Kind: "write", Path: f.name, Off: off, Data: append([]byte{}, b[:n]...)})
+			}
+			if !at {
+				f.pos = off + int64(n)
+				f.f.Seek(f.pos, 0)
+			}
+			return n, err
+		}
 		return 0, err
 	}
 	n, err := f.f.WriteAt(b, off)
